@@ -37,6 +37,13 @@ static uint64_t lifecycle(const Cell &c, int perm, bool file_first) {
     auto all_gates = [&](const CK *ck) { for (const Gate &g : table()) { apply(g, ct + 3, ct, ct + 1, ct + 2, 1, ck); h = hash_lwe(ct + 3, c.n, h); h = mix(h, (uint64_t)bootsSymDecrypt(ct + 3, sk)); }
         bootsNAND(ct + 4, ct, ct + 1, ck); bootsMUX(ct + 5, ct + 3, ct + 4, ct, ck); h = hash_lwe(ct + 5, c.n, h); };
     all_gates(&sk->cloud);
+    // bootstrapping of a sample whose rounded right-hand side is 0 (a branch of its own in the blind rotation, met once in 2N gates), and
+    // sample extraction at the indices the gates never use (0 is the only one they use)
+    { LweSample *z = new_LweSample(lp), *o = new_LweSample(lp), *oe = new_LweSample(&tp->extracted_lweparams); for (int i = 0; i < c.n; i++) z->a[i] = (Torus32)(i * 2654435761u); z->current_variance = 0;
+      for (Torus32 b : {(Torus32)0, (Torus32)1000, (Torus32)-1000}) { z->b = b; tfhe_bootstrap_FFT(o, sk->cloud.bkFFT, 0x20000000, z); h = hash_lwe(o, c.n, h); tfhe_bootstrap_woKS_FFT(oe, sk->cloud.bkFFT, 0x20000000, z); h = vf::fnv(oe->a, c.k * 1024 * 4, h); tfhe_bootstrap(o, sk->cloud.bk, 0x20000000, z); h = hash_lwe(o, c.n, h); }
+      TLweSample *acc = new_TLweSample(tp); for (int i = 0; i <= c.k; i++) for (int j = 0; j < 1024; j++) acc->a[i].coefsT[j] = (Torus32)((i * 1024 + j) * 2246822519u);
+      for (int idx : {0, 1, 512, 1023}) { tLweExtractLweSampleIndex(oe, acc, idx, &tp->extracted_lweparams, tp); h = vf::fnv(oe->a, c.k * 1024 * 4, h); h = vf::fnv(&oe->b, 4, h); }
+      delete_TLweSample(acc); delete_LweSample(z); delete_LweSample(o); delete_LweSample(oe); }
     // export on both transports, import, evaluate with the imported key
     std::string cloudbytes; CK *imported[2] = {nullptr, nullptr};
     for (int rnd = 0; rnd < 2; rnd++) { bool file = (rnd == 0) == file_first;
